@@ -717,4 +717,105 @@ theorem lane_rows_perm (cs : List BcSnap) (lay : Layout) (hlay : LayoutOK lay) (
   refine List.Perm.append_left _ ?_
   exact (flatMap_pair_perm _ _ _).symm
 
+/-- the position `posFn` assigns to a time denotes that time: exactly on the snap grid, within 1/192 beat (at the
+tempo in force) off it (`write_positions` for the pointwise position function) -/
+theorem posFn_time (cs : List BcSnap) (hwf : wfChanges cs = true) (hs : sortedSnaps cs = true)
+    (h0 : firstAtZero cs = true) (hgc : gridCompatible (grid defaultMaxDiv) cs = true) (hm : metronomeOk cs = true)
+    (t : Rat) (ht : 0 ≤ t) :
+    rabs (timeAt 0 cs (posOf (posFn cs t)) - t) ≤ 1 / 192 * activeBeatLen 0 cs t ∧
+    (OnGridAt (grid defaultMaxDiv) 0 cs t → timeAt 0 cs (posOf (posFn cs t)) = t) := by
+  obtain ⟨F, hF, hFt⟩ := write_positions cs hwf hs h0 hgc hm [t] (by simpa using ht)
+  have hp := (snaps_pointwise cs hwf hs h0 hgc hm [t] (by simpa using ht)).1
+  rw [hF] at hp
+  have e : F t = posFn cs t := by simpa using hp
+  rw [timeAt_posOf, ← e]
+  exact (hFt t (by simp)).2
+
+/-- **One lane of the written file, by the book.**  `rows` = the rows the writer builds for the chart
+(`writeCells_eq`), renderable and collision-free (`RowsOK`: ¬D36, ¬D35), note ids different from `00`; `items` = the
+lane's hits and holds in time order, one after the other (`hasc`: nothing of the lane starts inside a hold — ¬D37),
+sample ids different from the `#LNOBJ` id.  Whenever the file's lines give the lane's channel an arrangement `os` of
+the rows of that channel (`written_file_objects`), the by-the-book reading of the lane — sort by position, check
+that positions are pairwise different, pair `#LNOBJ` — is defined and returns exactly one hit per in-memory hit and
+one hold per in-memory hold, in the lane's column, at positions whose by-the-book times are the in-memory times
+exactly on the snap grid and within 1/192 beat (at the tempo in force) otherwise.
+Both named hypotheses of `bms_write_read_partial` are discharged here: `hch` by `written_file_objects` +
+`lane_rows_perm`, `hstrict` by `positions_strict` (monotone snapping) from the rows' `nocoll`. -/
+theorem written_lane_denotes (cs : List BcSnap) (hwf : wfChanges cs = true) (hs : strictSnaps cs = true)
+    (h0 : firstAtZero cs = true) (hgc : gridCompatible (grid defaultMaxDiv) cs = true) (hm : metronomeOk cs = true)
+    (lay : Layout) (hlay : LayoutOK lay) (dflt : Bytes) (c : WChart) (hok : BmsOk cs lay c)
+    (hR : RowsOK (bmsNoteRows cs lay dflt c ++ bmsTempoRows cs lay c))
+    (hv : ∀ r ∈ bmsNoteRows cs lay dflt c, r.value ≠ ['0', '0'])
+    (lane : Bytes × Nat) (hl : lane ∈ lay.lanes)
+    (items : List TAtom) (hitems : items.Perm (laneItems c dflt lane.2)) (hid : ∀ a ∈ items, a.idOk c.lnEnd)
+    (hasc : (items.flatMap TAtom.times).Pairwise (fun a b => a ≤ b))
+    (so : Bytes → Bytes) (notes : List (Bytes × Bytes × Bytes)) (os : List Obj)
+    (hos : channelObjs notes lane.1 = some os)
+    (hperm : os.Perm (((bmsNoteRows cs lay dflt c ++ bmsTempoRows cs lay c).filter (rowShown lane.1)).map objOfRow)) :
+    denoteLane (some c.lnEnd) so notes lane =
+      some ((items.map (TAtom.toAtom (posFn cs) c.lnEnd)).flatMap (Atom.hits so lane.2),
+            (items.map (TAtom.toAtom (posFn cs) c.lnEnd)).flatMap (Atom.holds so lane.2)) ∧
+    ∀ a ∈ items, ∀ t ∈ a.times,
+      rabs (timeAt 0 cs (posOf (posFn cs t)) - t) ≤ 1 / 192 * activeBeatLen 0 cs t ∧
+      (OnGridAt (grid defaultMaxDiv) 0 cs t → timeAt 0 cs (posOf (posFn cs t)) = t) := by
+  have hsorted := sortedSnaps_of_strict hs
+  -- the items' times are in the tempo list's range
+  have hts : ∀ a ∈ items, ∀ t ∈ a.times, 0 ≤ t := by
+    intro a ha t ht
+    have ha' := hitems.mem_iff.mp ha
+    simp only [laneItems, List.mem_append, List.mem_map, List.mem_filter] at ha'
+    rcases ha' with ⟨h, ⟨hh, _⟩, rfl⟩ | ⟨h, ⟨hh, _⟩, rfl⟩
+    · simp only [TAtom.times, List.mem_singleton] at ht
+      rw [ht]; exact hok.times.1 h hh
+    · simp only [TAtom.times, List.mem_cons, List.not_mem_nil, or_false] at ht
+      rcases ht with e | e
+      · rw [e]; exact (hok.times.2.1 h hh).1
+      · rw [e]; exact (hok.times.2.1 h hh).2
+  -- the target sequence and the arrangement
+  have hrows := lane_rows_perm cs lay hlay dflt c hok hv lane hl
+  have htarget : os.Perm ((items.map (TAtom.toAtom (posFn cs) c.lnEnd)).flatMap Atom.objs) :=
+    (hperm.trans hrows).trans ((hitems.map _).flatMap_right _).symm
+  -- pairwise different positions, from the rows
+  have hpwRows : (((bmsNoteRows cs lay dflt c ++ bmsTempoRows cs lay c).filter (rowShown lane.1)).map objOfRow).Pairwise
+      (fun a b => ¬ (a.snap.measure = b.snap.measure ∧ a.snap.beat = b.snap.beat)) := by
+    rw [List.pairwise_map]
+    refine (hR.nocoll.filter (rowShown lane.1)).imp_of_mem ?_
+    intro a b ha hb hab h
+    have ca := (List.mem_filter.mp ha).2
+    have cb := (List.mem_filter.mp hb).2
+    simp only [rowShown, Bool.and_eq_true, decide_eq_true_eq] at ca cb
+    exact hab ⟨ca.1.trans cb.1.symm, by simpa [objOfRow, posOf] using h⟩
+  have hpwT : ((items.map (TAtom.toAtom (posFn cs) c.lnEnd)).flatMap Atom.objs).Pairwise
+      (fun a b => ¬ (a.snap.measure = b.snap.measure ∧ a.snap.beat = b.snap.beat)) := by
+    refine ((hrows.trans ((hitems.map _).flatMap_right _).symm).pairwise_iff ?_).mp hpwRows
+    intro a b h h'
+    exact h ⟨h'.1.symm, h'.2.symm⟩
+  have hstrict : strictAsc ((items.map (TAtom.toAtom (posFn cs) c.lnEnd)).flatMap Atom.objs) = true := by
+    rw [atoms_tv] at hpwT ⊢
+    apply positions_strict cs hwf hsorted hgc hok.met4
+    · intro p hp
+      have : p.1 ∈ items.flatMap TAtom.times := by
+        rw [← tv_times c.lnEnd]; exact List.mem_map_of_mem hp
+      obtain ⟨a, ha, hta⟩ := List.mem_flatMap.mp this
+      exact hts a ha _ hta
+    · have := hasc
+      rw [← tv_times c.lnEnd, List.pairwise_map] at this
+      exact this
+    · rw [List.pairwise_map] at hpwT
+      exact hpwT.imp (fun {a b} h => by simpa [posOf] using h)
+  constructor
+  · obtain ⟨hso, _⟩ := written_lane_sorted os _ htarget hstrict
+    have hwfA : ∀ a ∈ items.map (TAtom.toAtom (posFn cs) c.lnEnd), a.wf c.lnEnd := by
+      intro a ha
+      obtain ⟨x, hx, rfl⟩ := List.mem_map.mp ha
+      have := hid x hx
+      cases x with
+      | hit t id => exact this
+      | hold t1 t2 id => exact ⟨this, rfl⟩
+    unfold denoteLane
+    simp only [hos, hso, hstrict, if_true]
+    exact pairLane_atoms c.lnEnd so lane.2 _ hwfA
+  · intro a ha t ht
+    exact posFn_time cs hwf hsorted h0 hgc hm t (hts a ha t ht)
+
 end Reamber.BMS
